@@ -6,7 +6,10 @@ import (
 	"bytes"
 	"fmt"
 	"sort"
+	"strings"
 	"sync"
+	"sync/atomic"
+	"time"
 	"testing"
 
 	nt "github.com/mit-pdos/go-nfsd/nfstypes"
@@ -756,4 +759,203 @@ func TestC13Reuse(t *testing.T) {
 			St.Sample(map[string]any{"kind": "directories on recycled inode numbers within one server uptime", "history": hist}, ndirdir > 0)
 		}
 	})
+}
+
+// READDIRPLUS held in the middle while another client removes a listed entry and makes a new object elsewhere that
+// receives the freed inode number (the inode table is otherwise full, so the number is handed out again at once).
+// Every entry the held listing returns must carry the handle, file id and type of the object its name had in this
+// directory - never those of the unrelated new object.  Children are numbered above their directory and the other
+// client never names the directory in its parent, so known finding KF1 (lock order of READDIRPLUS) is not in play.
+// Enumerated: what is made on the freed number x point at which the listing is held (lock/commit points, then
+// device accesses on a cold cache).
+func TestC13PlusWindow(t *testing.T) {
+	inodeFullOnce.Do(buildInodeFullImage)
+	shard, nshards := EnvInt("VERIF_SHARD", 0), EnvInt("VERIF_NSHARDS", 1)
+	St.Exhaustive(true)
+	type wcase struct {
+		Make string
+		Hook int
+		Disk bool
+	}
+	var cases []wcase
+	for _, mk := range []string{"mkdir", "create", "symlink"} {
+		for h := 0; h < 10; h++ {
+			cases = append(cases, wcase{mk, h, false}, wcase{mk, h, true})
+		}
+	}
+	nrun, npaused, nreused := 0, 0, 0
+	for i, wc := range cases {
+		if i%nshards != shard {
+			continue
+		}
+		d := NewDiskFrom(inodeFullDisk, inodeFullImg)
+		d.SetRecord(false)
+		s := StartSrv(d, true, false)
+		api := s.API()
+		root := s.RootFH()
+		var hist []string
+		logf := func(format string, a ...any) { hist = append(hist, fmt.Sprintf(format, a...)) }
+		fail := func(format string, a ...any) {
+			msg := fmt.Sprintf(format, a...)
+			St.Violation("C13", msg, map[string]any{"case": fmt.Sprintf("%+v", wc), "history": hist})
+			t.Fatalf("C13: %s\n%v", msg, hist)
+		}
+		notJudged := func() {
+			s.Stop()
+			St.Class("setup_not_possible_with_this_build_case_not_judged")
+		}
+		p0 := api.NFSPROC3_LOOKUP(nt.LOOKUP3args{What: nt.Diropargs3{Dir: root, Name: nt.Filename3(inodeFullDirs[0])}})
+		p1 := api.NFSPROC3_LOOKUP(nt.LOOKUP3args{What: nt.Diropargs3{Dir: root, Name: nt.Filename3(inodeFullDirs[1])}})
+		ok := p0.Status == nt.NFS3_OK && p1.Status == nt.NFS3_OK
+		for _, n := range []string{"p5", "p12", "p19", "p26"} {
+			ok = ok && api.NFSPROC3_REMOVE(nt.REMOVE3args{Object: nt.Diropargs3{Dir: p0.Resok.Object, Name: nt.Filename3(n)}}).Status == nt.NFS3_OK
+		}
+		if !ok {
+			notJudged()
+			continue
+		}
+		s.Restart() // the allocator starts from the bottom: the directory gets the lowest of the four numbers
+		api = s.API()
+		md := api.NFSPROC3_MKDIR(nt.MKDIR3args{Where: nt.Diropargs3{Dir: root, Name: "d"}})
+		if md.Status != nt.NFS3_OK {
+			notJudged()
+			continue
+		}
+		dh := md.Resok.Obj.Handle
+		did := uint64(md.Resok.Obj_attributes.Attributes.Fileid)
+		type ent struct {
+			id uint64
+			fh []byte
+		}
+		have := map[string]ent{}
+		for _, n := range []string{"a", "b", "c"} {
+			c := api.NFSPROC3_CREATE(nt.CREATE3args{Where: nt.Diropargs3{Dir: dh, Name: nt.Filename3(n)}})
+			ok = ok && c.Status == nt.NFS3_OK && uint64(c.Resok.Obj_attributes.Attributes.Fileid) > did
+			have[n] = ent{uint64(c.Resok.Obj_attributes.Attributes.Fileid), c.Resok.Obj.Handle.Data}
+		}
+		if !ok {
+			notJudged()
+			continue
+		}
+		s.Restart() // cold cache: the listing has to fetch every inode from the device
+		api = s.API()
+		logf("inode table full; /d (inode %d) holds a (%d), b (%d), c (%d); server restarted", did, have["a"].id, have["b"].id, have["c"].id)
+		reached, othersDone := make(chan struct{}), make(chan struct{})
+		var reachedOnce sync.Once
+		var gid0 uint64
+		var nhook int32
+		paused := false
+		hold := func() {
+			if goid() != atomic.LoadUint64(&gid0) {
+				return
+			}
+			if int(atomic.AddInt32(&nhook, 1))-1 != wc.Hook {
+				return
+			}
+			paused = true
+			reachedOnce.Do(func() { close(reached) })
+			select {
+			case <-othersDone:
+			case <-time.After(150 * time.Millisecond):
+			}
+		}
+		mon := s.Mon()
+		if wc.Disk {
+			d.SetHook(func(kind string, addr uint64) {
+				if kind == "r" || kind == "R" {
+					hold()
+				}
+			})
+		} else {
+			mon.SetYield(func(point string) { hold() })
+		}
+		var ents []DirEntry
+		var st0 nt.Nfsstat3
+		var eof bool
+		var r1, r2 nt.Nfsstat3
+		var xid uint64
+		var xfh []byte
+		done0 := make(chan struct{})
+		o := Guard(30*time.Second, func() {
+			go func() {
+				defer close(done0)
+				defer reachedOnce.Do(func() { close(reached) })
+				atomic.StoreUint64(&gid0, goid())
+				ents, eof, st0 = onePage(api, dh, pageReq{Plus: true, Count: 65536, Dircount: 65536})
+			}()
+			<-reached
+			r1 = api.NFSPROC3_REMOVE(nt.REMOVE3args{Object: nt.Diropargs3{Dir: dh, Name: "b"}}).Status
+			where := nt.Diropargs3{Dir: p1.Resok.Object, Name: "x"}
+			switch wc.Make {
+			case "mkdir":
+				r := api.NFSPROC3_MKDIR(nt.MKDIR3args{Where: where})
+				r2, xid, xfh = r.Status, uint64(r.Resok.Obj_attributes.Attributes.Fileid), r.Resok.Obj.Handle.Data
+			case "create":
+				r := api.NFSPROC3_CREATE(nt.CREATE3args{Where: where})
+				r2, xid, xfh = r.Status, uint64(r.Resok.Obj_attributes.Attributes.Fileid), r.Resok.Obj.Handle.Data
+				if r2 == nt.NFS3_OK {
+					api.NFSPROC3_WRITE(nt.WRITE3args{File: r.Resok.Obj.Handle, Offset: 0, Count: 777, Stable: nt.FILE_SYNC, Data: patternData(5, 777)})
+				}
+			case "symlink":
+				r := api.NFSPROC3_SYMLINK(nt.SYMLINK3args{Where: where, Symlink: nt.Symlinkdata3{Symlink_data: "somewhere/else"}})
+				r2, xid, xfh = r.Status, uint64(r.Resok.Obj_attributes.Attributes.Fileid), r.Resok.Obj.Handle.Data
+			}
+			close(othersDone)
+			<-done0
+		})
+		d.SetHook(nil)
+		mon.SetYield(nil)
+		logf("client 0: READDIRPLUS /d, held at its %s #%d: %v -> status %d, %d entries, eof %v", map[bool]string{true: "device read", false: "lock/commit point"}[wc.Disk], wc.Hook, paused, st0, len(ents), eof)
+		logf("client 1 meanwhile: REMOVE /d/b: %d; %s /%s/x: %d (inode %d)", r1, strings.ToUpper(wc.Make), inodeFullDirs[1], r2, xid)
+		if o.Slow {
+			s.Stop()
+			continue
+		}
+		if o.Hung || o.Panic != "" {
+			fail("the requests did not return: %s %s", o.Why, o.Panic)
+		}
+		nrun++
+		if paused {
+			npaused++
+		}
+		if r1 == nt.NFS3_OK && r2 == nt.NFS3_OK && xid == have["b"].id {
+			nreused++
+			if paused {
+				St.NT(Hash("c13pluswindow", i))
+			}
+		}
+		if st0 != nt.NFS3_OK {
+			fail("READDIRPLUS /d: status %d", st0)
+		}
+		seen := map[string]int{}
+		for _, e := range ents {
+			seen[e.Name]++
+			if e.Name == "." || e.Name == ".." {
+				continue
+			}
+			w, known := have[e.Name]
+			if !known {
+				fail("the listing returned %q, which never was in /d", trunc(e.Name, 30))
+			}
+			if e.Fileid != w.id || e.FH == nil || !bytes.Equal(e.FH, w.fh) {
+				fail("READDIRPLUS entry %q carries file id %d and handle %x; the object of that name in /d has id %d and handle %x (the new object /%s/x has handle %x)", e.Name, e.Fileid, e.FH, w.id, w.fh, inodeFullDirs[1], xfh)
+			}
+			if e.Attr == nil || e.Attr.Ftype != nt.NF3REG || uint64(e.Attr.Fileid) != w.id || e.Attr.Size != 0 {
+				fail("READDIRPLUS entry %q: attributes %+v are not those of the empty regular file %d that had this name in /d", e.Name, e.Attr, w.id)
+			}
+		}
+		for _, n := range []string{".", "..", "a", "c"} {
+			if eof && seen[n] != 1 {
+				fail("entry %q, in /d throughout, was returned %d times", n, seen[n])
+			}
+		}
+		if seen["b"] > 1 {
+			fail("entry b was returned %d times", seen["b"])
+		}
+		s.Stop()
+		St.Eval(1)
+	}
+	St.ClassN("plus_window_cases_with_the_listing_held", npaused)
+	St.ClassN("plus_window_cases_where_the_removed_entrys_number_was_reused", nreused)
+	St.Sample(map[string]any{"kind": "READDIRPLUS held while a listed entry is removed and its inode number reused elsewhere", "cases_in_this_shard": nrun, "held": npaused, "reused": nreused}, true)
 }
